@@ -77,7 +77,10 @@ def run(ctx, case):
     ms = maps_of(obj)[:3]
     for m in ms:
         try:
-            full_ln(m, case["gap"], case["thres"])
+            if ctx.cur_k is not None and ctx.cur_k % 2:
+                full_ln(m, gap=case["gap"], ln_as_hit_thres=case["thres"])  # the keyword form of the same call
+            else:
+                full_ln(m, case["gap"], case["thres"])
         except Exception:
             pass
     if ctx.cur_k is not None and ctx.cur_k % 3 == 1:
